@@ -190,6 +190,14 @@ def full_runs(chk):
                 m_breaks=[b1, b2, b3, rng.choice([100, 150])], exponents=[1, rng.choice([3, 3, 2.5, 1]), 1],
                 slopes=[rng.choice([1, 0.9]), rng.choice([6e-4, 5e-4, 8e-4, 0.3]), rng.choice([0.43, 0.9, 1.05])],
                 scales=[0, rng.choice([0, 0, 1.0]), rng.choice([0, 0, 5.0])]))
+        if kind == "brokenpowerlaw" and rng.random() < 0.3:
+            # an increasing, strictly concave middle segment that passes the end-point validation (just under the 1:1 line at both ends)
+            kwb = ikw["BH_kwargs"]
+            e_ = rng.choice([0.5, 0.7, 0.3])
+            b2_, b3_ = kwb["m_breaks"][1], kwb["m_breaks"][2]
+            q_ = rng.choice([0.999, 0.98, 0.9])
+            s_ = q_ * (b3_ - b2_) / (b3_ ** e_ - b2_ ** e_)
+            kwb["exponents"], kwb["slopes"], kwb["scales"] = [1, e_, 1], [kwb["slopes"][0], s_, kwb["slopes"][2]], [0, q_ * b2_ - s_ * b2_ ** e_, kwb["scales"][2]]
         case = dict(FeH=feh, **ikw)
         try:
             obj = ifmr_mod.IFMR(feh, **ikw)
@@ -208,7 +216,15 @@ def full_runs(chk):
         bad = np.flatnonzero(mf > grid * (1 + 1e-12))
         if bad.size:
             i = int(bad[np.argmax((mf - grid)[bad])])
-            chk.fail("the IFMR remnant mass never exceeds the progenitor's mass", case, dict(m=float(grid[i]), m_rem=float(mf[i]), n_bad=int(bad.size)))
+            seg_concave = False
+            if ikw["BH_method"] == "brokenpowerlaw":
+                kwb = ikw["BH_kwargs"]
+                for j_ in range(3):
+                    if all(kwb["m_breaks"][j_] <= grid[b_] <= kwb["m_breaks"][j_ + 1] for b_ in bad):
+                        e_, s_ = kwb["exponents"][j_], kwb["slopes"][j_]
+                        seg_concave = bool(s_ * e_ > 0 and s_ * e_ * (e_ - 1) < 0)
+            chk.fail("the IFMR remnant mass never exceeds the progenitor's mass", case, dict(m=float(grid[i]), m_rem=float(mf[i]), n_bad=int(bad.size)),
+                     all_in_one_increasing_concave_segment=seg_concave)
     nrun = 3 if chk.tier == "quick" else 20
     for r in range(nrun):
         kw = dict(m_breaks=[0.1, 0.5, 1.0, 100], a_slopes=[rng.uniform(-1, 0), rng.uniform(-2, -1), rng.uniform(-3, -2)],
@@ -234,6 +250,8 @@ def classify(f):
         return "wd_peak_on_upper_edge"
     if f["clause"] == "the IFMR remnant mass never exceeds the progenitor's mass" and f["input"].get("BH_method") in ("linear", "powerlaw"):
         return "unbounded_bh_segment_upper_end_unchecked"
+    if f["clause"] == "the IFMR remnant mass never exceeds the progenitor's mass" and f.get("all_in_one_increasing_concave_segment"):
+        return "concave_segment_endpoint_validation"
     return None
 
 
